@@ -133,10 +133,14 @@ structure Shape (env : Env) (v : Variant) (cfg : Cfg) (s : State) (gs : List Gro
       (c.rest = .write2 f :: r → k = env.more t c.idx) ∧
       (c.rest = .write1 f :: r → k < env.more t c.idx ∨ k = 0)
   quiet : (∀ t, atW (view v cfg (s.th t)) = false) → s.sh.wire = flat gs
+  /-- the socket is shut under the write lock: on a shut socket nobody has written a chunk of a frame in progress -/
+  shut : s.sh.sockShut = true → ∀ t c f r, (s.th t).current v cfg = some c →
+    (c.rest = .write1 f :: r ∨ c.rest = .write2 f :: r) → s.sh.wire = flat gs
 
 theorem shape_init (env : Env) (v : Variant) (cfg : Cfg) (progs : Tid → List Call) :
     Shape env v cfg (init progs) [] := by
-  refine ⟨fun g h => (by cases h), fun t => (by simp [gidx]), fun g h => (by cases h), ?_, fun _ => rfl⟩
+  refine ⟨fun g h => (by cases h), fun t => (by simp [gidx]), fun g h => (by cases h), ?_, fun _ => rfl,
+    fun _ _ _ _ _ _ _ => rfl⟩
   intro t c f r hc hr
   have := atW_of_rest hc hr
   rw [fresh_atW v cfg _ rfl] at this; cases this
@@ -196,8 +200,33 @@ theorem shape_step_plain (env : Env) (v : Variant) (cfg : Cfg) (s : State) (t : 
       rw [hv] at hnw; cases st <;> first | rfl | cases hnw
     have m := exec_moves v t st r s.sh c
     have hw := exec_wire_not_write v t st r s.sh c hst
-    generalize exec v t st r s.sh c = p at m hw L'
-    refine ⟨S.ok, S.sorted, ?_, ?_, ?_⟩
+    have hsh := exec_shut v t st r s.sh c
+    generalize exec v t st r s.sh c = p at m hw L' hsh
+    -- when `t` newly stands before a write, nobody stood before a write
+    have tnew : ∀ cu f2 r2, ((setTh s t (settle (s.th t) p.2) p.1).th t).current v cfg = some cu →
+        (cu.rest = .write1 f2 :: r2 ∨ cu.rest = .write2 f2 :: r2) →
+        (∀ w, atW (view v cfg (s.th w)) = false) ∧ ∃ f3 r3, cu.rest = .write1 f3 :: r3 := by
+      intro cu f2 r2 hcu hru
+      have hat := atW_of_rest hcu hru
+      rw [setTh_same] at hcu hat
+      rcases settle_cases v cfg (s.th t) p.2 hh with ⟨hne, e2, _⟩ | ⟨_, hcn⟩
+      · rw [current_settle v cfg _ _ hh hne] at hcu
+        cases hcu
+        rw [e2] at hat
+        refine ⟨?_, moves_atW m d hst hat⟩
+        intro w
+        by_cases hwu : w = t
+        · subst hwu; exact hnw
+        · cases hx : atW (view v cfg (s.th w)) with
+          | false => rfl
+          | true =>
+            have h1 : holds (view v cfg ((setTh s t (settle (s.th t) p.2) p.1).th t)) = true := by
+              rw [setTh_same, e2]; exact atW_holds (by rw [← e2]; have := L'.disc t; rwa [setTh_same] at this) hat
+            have h2 : atW (view v cfg ((setTh s t (settle (s.th t) p.2) p.1).th w)) = true := by
+              rw [setTh_other _ _ _ _ _ hwu]; exact hx
+            exact absurd (atW_unique L' h1 h2) hwu
+      · rw [fresh_atW v cfg _ hcn] at hat; cases hat
+    refine ⟨S.ok, S.sorted, ?_, ?_, ?_, ?_⟩
     · intro g hg
       by_cases hu : g.tid = t
       · rw [hu, setTh_same]
@@ -216,29 +245,9 @@ theorem shape_step_plain (env : Env) (v : Variant) (cfg : Cfg) (s : State) (t : 
       rw [setTh_sh, hw]
       by_cases hu : u = t
       · subst hu
-        have hat := atW_of_rest hcu hru
-        rw [setTh_same] at hcu hat
-        rcases settle_cases v cfg (s.th u) p.2 hh with ⟨hne, e2, _⟩ | ⟨_, hcn⟩
-        · rw [current_settle v cfg _ _ hh hne] at hcu
-          cases hcu
-          rw [e2] at hat
-          obtain ⟨f3, r3, e3⟩ := moves_atW m d hst hat
-          -- nobody stood before a write
-          have hnone : ∀ w, atW (view v cfg (s.th w)) = false := by
-            intro w
-            by_cases hwu : w = u
-            · subst hwu; exact hnw
-            · cases hx : atW (view v cfg (s.th w)) with
-              | false => rfl
-              | true =>
-                have h1 : holds (view v cfg ((setTh s u (settle (s.th u) p.2) p.1).th u)) = true := by
-                  rw [setTh_same, e2]; exact atW_holds (by rw [← e2]; have := L'.disc u; rwa [setTh_same] at this) hat
-                have h2 : atW (view v cfg ((setTh s u (settle (s.th u) p.2) p.1).th w)) = true := by
-                  rw [setTh_other _ _ _ _ _ hwu]; exact hx
-                exact absurd (atW_unique L' h1 h2) hwu
-          refine ⟨0, by rw [S.quiet hnone]; simp, Nat.zero_le _, ?_, fun _ => Or.inr rfl⟩
-          intro h2; rw [e3] at h2; cases h2
-        · rw [fresh_atW v cfg _ hcn] at hat; cases hat
+        obtain ⟨hnone, f3, r3, e3⟩ := tnew cu f2 r2 hcu hru
+        refine ⟨0, by rw [S.quiet hnone]; simp, Nat.zero_le _, ?_, fun _ => Or.inr rfl⟩
+        intro h2; rw [e3] at h2; cases h2
       · rw [setTh_other _ _ _ _ _ hu] at hcu
         exact S.mid u cu f2 r2 hcu hru
     · intro hall
@@ -249,6 +258,21 @@ theorem shape_step_plain (env : Env) (v : Variant) (cfg : Cfg) (s : State) (t : 
       · subst hwt; exact hnw
       · have := hall w
         rwa [setTh_other _ _ _ _ _ hwt] at this
+    · intro hs u cu f2 r2 hcu hru
+      rw [setTh_sh] at hs ⊢
+      rw [hw]
+      by_cases hu : u = t
+      · subst hu
+        exact S.quiet (tnew cu f2 r2 hcu hru).1
+      · rw [setTh_other _ _ _ _ _ hu] at hcu
+        cases hsx : s.sh.sockShut with
+        | true => exact S.shut hsx u cu f2 r2 hcu hru
+        | false =>
+          rw [hsh, hsx] at hs
+          have : st = .sockClose := by simpa using hs
+          subst this
+          have h1 : holds (view v cfg (s.th t)) = true := by rw [hv]; exact disc_sockClose d
+          exact absurd (atW_unique B.L h1 (atW_of_rest hcu hru)) hu
 
 /-- facts about a thread standing before a write -/
 theorem writer_facts {env : Env} {v : Variant} {cfg : Cfg} {s : State} {gs : List Group} {t : Tid} {c : Cur}
@@ -281,7 +305,11 @@ theorem shape_close (env : Env) (v : Variant) (cfg : Cfg) (s : State) (t : Tid) 
     by_cases hu : u = t
     · subst hu; rw [setTh_same, hview]; exact atW_noWrite hnw
     · rw [setTh_other _ _ _ _ _ hu]; exact hothers u hu
-  refine ⟨?_, ?_, ?_, ?_, fun _ => by rw [setTh_sh]; exact hwire⟩
+  refine ⟨?_, ?_, ?_, ?_, fun _ => by rw [setTh_sh]; exact hwire, ?_⟩
+  rotate_right
+  · intro _ u cu f2 r2 hcu hru
+    have := atW_of_rest hcu hru
+    rw [hnone u] at this; cases this
   · intro g' hg'
     rcases List.mem_append.mp hg' with h | h
     · exact S.ok g' h
@@ -311,6 +339,34 @@ theorem shape_close (env : Env) (v : Variant) (cfg : Cfg) (s : State) (t : Tid) 
     have := atW_of_rest hcu hru
     rw [hnone u] at this; cases this
 
+/-- the write step that fails before the first chunk of the frame on a shut socket: no group is added -/
+theorem shape_abort (env : Env) (v : Variant) (cfg : Cfg) (s : State) (t : Tid) (gs : List Group) (c : Cur)
+    (p : Shared × Cur) (B : BaseN v cfg s) (S : Shape env v cfg s gs)
+    (hc : (s.th t).current v cfg = some c) (hw : atW c.rest = true)
+    (hne : p.2.rest ≠ []) (hnw : noWrite p.2.rest = true) (hwire : p.1.wire = flat gs) :
+    Shape env v cfg (setTh s t (settle (s.th t) p.2) p.1) gs := by
+  obtain ⟨hh, hidx, hearlier, hothers⟩ := writer_facts B S hc hw
+  have hview : view v cfg (settle (s.th t) p.2) = p.2.rest := view_settle_ne v cfg _ _ hh hne
+  have hpc : (settle (s.th t) p.2).pc = (s.th t).pc := settle_pc_same _ _ hne
+  have hnone : ∀ u, atW (view v cfg ((setTh s t (settle (s.th t) p.2) p.1).th u)) = false := by
+    intro u
+    by_cases hu : u = t
+    · subst hu; rw [setTh_same, hview]; exact atW_noWrite hnw
+    · rw [setTh_other _ _ _ _ _ hu]; exact hothers u hu
+  refine ⟨S.ok, S.sorted, ?_, ?_, fun _ => by rw [setTh_sh]; exact hwire, ?_⟩
+  · intro g' h
+    by_cases hu : g'.tid = t
+    · rw [hu, setTh_same, hpc]
+      have := hearlier g' h hu
+      left; omega
+    · rw [setTh_other _ _ _ _ _ hu]; exact S.bound g' h
+  · intro u cu f2 r2 hcu hru
+    have := atW_of_rest hcu hru
+    rw [hnone u] at this; cases this
+  · intro _ u cu f2 r2 hcu hru
+    have := atW_of_rest hcu hru
+    rw [hnone u] at this; cases this
+
 /-- the write step after which the thread still stands before a write of the same frame -/
 theorem shape_cont (env : Env) (v : Variant) (cfg : Cfg) (s : State) (t : Tid) (gs : List Group) (c : Cur)
     (p : Shared × Cur) (f : FrameSrc) (r' : List Step) (k' : Nat) (B : BaseN v cfg s) (S : Shape env v cfg s gs)
@@ -318,14 +374,14 @@ theorem shape_cont (env : Env) (v : Variant) (cfg : Cfg) (s : State) (t : Tid) (
     (hrest : p.2.rest = .write1 f :: r' ∨ p.2.rest = .write2 f :: r') (hi : p.2.idx = c.idx)
     (hwire : p.1.wire = flat gs ++ List.replicate k' ⟨t, c.idx, false, descOf f p.2⟩)
     (hk : k' ≤ env.more t c.idx) (hk2 : p.2.rest = .write2 f :: r' → k' = env.more t c.idx)
-    (hk1 : p.2.rest = .write1 f :: r' → k' < env.more t c.idx ∨ k' = 0) :
+    (hk1 : p.2.rest = .write1 f :: r' → k' < env.more t c.idx ∨ k' = 0) (hns : p.1.sockShut = false) :
     Shape env v cfg (setTh s t (settle (s.th t) p.2) p.1) gs := by
   obtain ⟨hh, hidx, hearlier, hothers⟩ := writer_facts B S hc hw
   have hne : p.2.rest ≠ [] := by rcases hrest with e | e <;> rw [e] <;> simp
   have hview : view v cfg (settle (s.th t) p.2) = p.2.rest := view_settle_ne v cfg _ _ hh hne
   have hpc : (settle (s.th t) p.2).pc = (s.th t).pc := settle_pc_same _ _ hne
   have hatw : atW p.2.rest = true := by rcases hrest with e | e <;> rw [e] <;> rfl
-  refine ⟨S.ok, S.sorted, ?_, ?_, ?_⟩
+  refine ⟨S.ok, S.sorted, ?_, ?_, ?_, fun hs => by rw [setTh_sh, hns] at hs; cases hs⟩
   · intro g' h
     by_cases hu : g'.tid = t
     · rw [hu, setTh_same, hpc]
@@ -362,25 +418,28 @@ theorem shape_stepN (env : Env) (v : Variant) (cfg : Cfg) (s : State) (t : Tid) 
     have o := execW1_out env t f r s.sh c
     generalize execW1 env t f r s.sh c = p at o
     cases o with
-    | fail hf =>
+    | dead hs =>
+      exact ⟨gs, shape_abort env v cfg s t gs c _ B S hc hw (holds_ne_nil (holds_toRelease _ hhr))
+        (noWrite_toRelease r (disc_tail d)) (S.shut hs t c f r hc (Or.inl hr))⟩
+    | fail _ hf =>
       rw [hsent] at hf
       refine ⟨gs ++ [⟨t, c.idx, descOf f c, k, false⟩], shape_close env v cfg s t gs c _ _ B S hc hw
         (holds_ne_nil (holds_toRelease _ hhr)) (noWrite_toRelease r (disc_tail d)) rfl rfl
         (Or.inr ⟨rfl, hf, hk⟩) ?_⟩
       simp [flat_append, flat_single, Group.chunks, hwire]
-    | skip _ h0 =>
+    | skip hns _ h0 =>
       refine ⟨gs, shape_cont env v cfg s t gs c _ f r2 k B S hc hw (Or.inr hr2) rfl hwire hk
-        (fun _ => by omega) (fun h => by rw [hr2] at h; cases h)⟩
-    | stay _ hlt =>
+        (fun _ => by omega) (fun h => by rw [hr2] at h; cases h) hns⟩
+    | stay hns _ hlt =>
       rw [hsent] at hlt
       refine ⟨gs, shape_cont env v cfg s t gs c _ f r (k + 1) B S hc hw (Or.inl rfl) rfl ?_ (by omega)
-        (fun h => by cases h) (fun _ => Or.inl hlt)⟩
+        (fun h => by cases h) (fun _ => Or.inl hlt) hns⟩
       simp only [hwire, List.append_assoc]
       rw [replicate_snoc]; rfl
-    | adv _ h0 hge =>
+    | adv hns _ h0 hge =>
       rw [hsent] at hge
       refine ⟨gs, shape_cont env v cfg s t gs c _ f r2 (k + 1) B S hc hw (Or.inr hr2) rfl ?_ (by omega)
-        (fun _ => by omega) (fun h => by rw [hr2] at h; cases h)⟩
+        (fun _ => by omega) (fun h => by rw [hr2] at h; cases h) hns⟩
       simp only [hwire, List.append_assoc]
       rw [replicate_snoc]; rfl
   · rw [e]
@@ -394,13 +453,16 @@ theorem shape_stepN (env : Env) (v : Variant) (cfg : Cfg) (s : State) (t : Tid) 
     have o := execW2_out env t f r s.sh c
     generalize execW2 env t f r s.sh c = p at o
     cases o with
-    | fail hf =>
+    | dead hs =>
+      exact ⟨gs, shape_abort env v cfg s t gs c _ B S hc hw (holds_ne_nil (holds_toRelease _ hhr))
+        (noWrite_suffix (toRelease_suffix r) hnw) (S.shut hs t c f r hc (Or.inr hr))⟩
+    | fail _ hf =>
       rw [hsent] at hf
       refine ⟨gs ++ [⟨t, c.idx, descOf f c, k, false⟩], shape_close env v cfg s t gs c _ _ B S hc hw
         (holds_ne_nil (holds_toRelease _ hhr)) (noWrite_suffix (toRelease_suffix r) hnw) rfl rfl
         (Or.inr ⟨rfl, hf, hk⟩) ?_⟩
       simp [flat_append, flat_single, Group.chunks, hwire]
-    | fin _ =>
+    | fin _ _ =>
       refine ⟨gs ++ [⟨t, c.idx, descOf f c, k, true⟩], shape_close env v cfg s t gs c _ _ B S hc hw
         (holds_ne_nil hhr) hnw rfl rfl (Or.inl ⟨rfl, hk2'⟩) ?_⟩
       simp [flat_append, flat_single, Group.chunks, hwire]
